@@ -139,7 +139,7 @@ func (s *Source) Read(p []byte) (int, error) {
 }
 
 // StdKinds lists the standard-library reader types that Std can build.
-var StdKinds = []string{"bytes.Reader", "bytes.Buffer", "strings.Reader", "bufio.Reader", "os.File", "io.SectionReader"}
+var StdKinds = []string{"bytes.Reader", "bytes.Buffer", "strings.Reader", "bufio.Reader", "os.File", "io.SectionReader", "os.Pipe"}
 
 // Std builds a standard-library reader of the named dynamic type holding prefix unrelated bytes followed by
 // data, positioned just after the prefix (as when an image is embedded in a container or follows another
@@ -177,6 +177,18 @@ func Std(kind string, prefix int, data []byte, scratchDir string) (r io.Reader, 
 				}
 				return -1
 			}, func() { f.Close(); os.Remove(f.Name()) }
+		}
+	case "os.Pipe":
+		// an *os.File that is not a regular file (piped stdin, a FIFO): it has Seek and Stat methods like any file,
+		// but Seek fails and Stat reports size 0
+		pr, pw, err := os.Pipe()
+		if err == nil {
+			go func() {
+				_, _ = pw.Write(all)
+				_ = pw.Close()
+			}()
+			_, _ = io.CopyN(io.Discard, pr, int64(prefix))
+			return pr, func() int { return -1 }, func() { pr.Close() }
 		}
 	case "io.SectionReader":
 		sr := io.NewSectionReader(bytes.NewReader(all), 0, int64(len(all)))
